@@ -14,7 +14,8 @@ CLAIMS = {
         "instruction (sequence enable; disable; store; enable = step_over_breakpoint around one single step): INT3 at exactly the "
         "requested byte, saved byte = the byte replaced, restore exact, re-arm keeps working; Tracer::apply_new_status on a "
         "breakpoint trap decided for every rip, si_code in {TRAP_BRKPT, SI_KERNEL} and breakpoint address pair: reports "
-        "Breakpoint(pid, rip-1), rewinds pc by exactly one and nothing else, marks the thread stopped, requests a group stop.",
+        "Breakpoint(pid, rip-1), rewinds pc by exactly one and nothing else, marks the thread stopped, requests a group stop; "
+        "a temporary breakpoint of another thread is absorbed: not reported, exactly one single step over the original byte, INT3 re-armed.",
         "Trusted: Kani/CBMC/CaDiCaL; stubs of ptrace read/write/getregs/setregs/getsiginfo onto static models; group_stop_interrupt cut; "
         "HashMap replaced by an association list in tracee.rs. Outside the claim: that the CPU traps exactly on patched bytes, "
         "continue_execution's dispatch, DWARF resolution of line/function breakpoints (C04), temporary breakpoints of other threads, "
@@ -54,9 +55,11 @@ CLAIMS = {
         "Bounded model checking of the hashbrown table scan the debugger uses to show HashMap/HashSet contents: "
         "match_empty_or_deleted + BitMask drain decided for all 2^128 control groups; HashmapReflection::iter / BucketIterator::next "
         "decided for every content of tables with 4 buckets and (<= 3 elements) 32 buckets (group boundary): the elements reported "
-        "are exactly the FULL buckets, each once - nothing missing, duplicated or invented, tombstones and padding skipped.",
-        "Trusted: Kani/CBMC; read_memory_by_pid stubbed onto a real harness allocation holding the table. Outside the claim: scalar and "
-        "struct decoding, VecDeque/BTreeMap walks, enum discriminants, type-graph construction, DWARF location evaluation, rendering; "
+        "are exactly the FULL buckets, each once - nothing missing, duplicated or invented, tombstones and padding skipped; "
+        "scalar decoding (i8..i128, u8..u128, isize/usize by name, char-sized, address, f32/f64 bit patterns, unit, every valid char, bool) "
+        "equals from_ne_bytes at the type's width and sign for all data bytes.",
+        "Trusted: Kani/CBMC; read_memory_by_pid stubbed onto a real harness allocation holding the table. Outside the claim: struct "
+        "and member decoding, VecDeque/BTreeMap walks, enum discriminants, type-graph construction, DWARF location evaluation, rendering; "
         "bucket counts and entry sizes other than the instances run.",
         "DESIGN.md section 6, C06"),
     "C07": (
@@ -87,7 +90,8 @@ CLAIMS = {
         "integer argument register (rdi, rsi, rdx, rcx, r8, r9) and leaves every other of the 27 registers unchanged, for all register "
         "contents and argument values; CallArgs::new refuses count mismatches and more than six arguments and never reaches the "
         "register mapping's unreachable!(); liter_to_arg_bin_repr puts the literal, truncated to the parameter's width, into the low "
-        "bytes of the register for every i64 / bool / address literal and each supported DWARF base type, and refuses mismatching kinds.",
+        "bytes of the register for every i64 / bool / address literal and each supported DWARF base type, and refuses mismatching kinds; "
+        "the Formatter bytes injected for vard/argd (rustc >= 1.87 layout), read back through std's own accessors, carry exactly `{:?}`'s options.",
         "Trusted: Kani/CBMC; HashMap -> association list in type.rs for the one-type ComplexType. Outside the claim (most of the "
         "statement): that f runs once and every register and text byte is restored (CallContext / call_fn_raw need a live process), "
         "vard/argd formatter injection, with_disabled_brkpts, the call cache.",
@@ -107,7 +111,8 @@ CLAIMS = {
         "Bounded model checking of the DAP session's sequencing logic with serialisation cut at its boundary: three sends of symbolic "
         "kind carry seq 1,2,3 in wire order and responses echo request_seq/command/success; and, by sequentialisation at the transport "
         "lock (Mutex::lock stubbed to let an adversary perform up to two complete foreign sends on the shared counter), sequence "
-        "numbers strictly increase in wire order for every such schedule for send_event_raw and send_response_raw. This check found "
+        "numbers strictly increase in wire order for every such schedule for send_event_raw and send_response_raw; a cancelled request "
+        "is answered exactly once (error response echoing request_seq and command) and the cancellation is consumed. This check found "
         "the seq-before-lock defect, repaired by fix: commit 67c6522.",
         "Trusted: Kani/CBMC; protocol::send_event and serde_json::to_value::<DapResponse> replaced by recorders; the adversary models "
         "the forwarders as taking their number under the lock (true after the fix; their closures cannot be called from a harness). "
@@ -127,7 +132,7 @@ CLAIMS = {
         "is decided for every 64-bit register image, slot, length and condition against the Intel SDM layout; "
         "HardwareBreakpoint::{enable, disable, address_already_observed} are decided as one inductive step from an arbitrary "
         "invariant state of two threads' debug registers (slot choice, reuse, fifth-watchpoint refusal without side effects, no "
-        "stale enable bits, same image to every thread).",
+        "stale enable bits, same image to every thread); a thread created later receives exactly the registry's last image.",
         "Trusted: Kani/CBMC/CaDiCaL; stubs of ptrace::read_user/write_user onto a static u_debugreg model; std HashMap replaced by an "
         "association-list model in tracee.rs. Outside the claim: scoped watchpoints (companion breakpoints), survival across restart, "
         "that the CPU raises #DB, old/new value rendering, more than two threads.",
@@ -136,7 +141,8 @@ CLAIMS = {
         "Bounded model checking of the word-granular memory kernels and the register file: read_memory_by_pid returns exactly "
         "MEM[a..a+n] for every content, alignment and n in {0,1,9} (8,16,17 thorough); the DAP byte writer write_bytes changes exactly "
         "[a, a+n) and nothing else for every content, alignment and n in {1,2,9} (8,17 thorough), across word boundaries; "
-        "RegisterMap <-> user_regs_struct round-trips field by field for all 27 registers and update/value agree.",
+        "RegisterMap <-> user_regs_struct round-trips field by field for all 27 registers and update/value agree; setVariable text of "
+        "3 bytes for u8/i8/i16 stores bytes that read back as the typed number or is refused (found the silent-truncation defect, fix: 902e8ed).",
         "Trusted: Kani/CBMC; ptrace::read and Debugger::{read_memory, write_memory} stubbed onto byte-array models. Outside the claim: "
         "page boundaries / unmapped memory, disassembly masking, setVariable serialisation of composite values, float parsing.",
         "DESIGN.md section 6, C15"),
